@@ -253,3 +253,27 @@ def attach_import_monitor():
     pp_mod.preprocess_imports = preprocess_imports
     parser_mod.preprocess_imports = preprocess_imports
     _attached.add("imports")
+
+
+def attach_alloc_monitor():
+    """SignalAnalyzer._allocate_factorio_virtual_signal: every compiler-chosen name (C13)."""
+    if "alloc" in _attached:
+        return
+    driver.setup()
+    from dsl_compiler.src.layout import signal_analyzer as sa_mod
+
+    SA = sa_mod.SignalAnalyzer
+    orig = SA._allocate_factorio_virtual_signal
+
+    @functools.wraps(orig)
+    def _allocate_factorio_virtual_signal(self):
+        name = orig(self)
+        try:
+            ALLOC_LOG.append({"name": name, "index": self._signal_pool_index, "pool": len(self._available_signal_pool),
+                              "wrapped": bool(self._warned_signal_reuse)})
+        except Exception:  # noqa: BLE001
+            pass
+        return name
+
+    SA._allocate_factorio_virtual_signal = _allocate_factorio_virtual_signal
+    _attached.add("alloc")
